@@ -10,6 +10,7 @@ from sa.report import norm
 from sa.srcmodel import FunctionInfo
 from sa.srcmodel import Program
 from sa.srcmodel import dotted
+from sa.util import region_when_true
 
 META = {
     "technique": "def-use lint on integer-literal construction (no float() on the path), table agreement between the lexer's "
@@ -119,7 +120,8 @@ def run(prog: Program, res: Result) -> None:  # noqa: PLR0912, PLR0915
         for t in tests:
             n_scan += 1
             what = f"Lexer.{name}: escape test is `peeked in self.ESCAPES or peeked == quote`"
-            if norm(t.test) in ("peeked in self.ESCAPES or peeked == quote", "peeked == quote or peeked in self.ESCAPES"):
+            core = t.test.operand if isinstance(t.test, ast.UnaryOp) and isinstance(t.test.op, ast.Not) else t.test
+            if norm(core) in ("peeked in self.ESCAPES or peeked == quote", "peeked == quote or peeked in self.ESCAPES"):
                 res.ok("C20.R2", f"{m.file}:{t.lineno} Lexer.{name}", what, "accepts exactly ESCAPES and the closing quote")
             else:
                 res.fail("C20.R2", file=m.file, line=t.lineno, qualname=f"Lexer.{name}", construct=t.test, message="string scanner accepts a different escape set than the other scanners / the decoder", what=what)
@@ -146,14 +148,15 @@ def run(prog: Program, res: Result) -> None:  # noqa: PLR0912, PLR0915
             kinds = _quote_kinds(node.test)
             if not kinds:
                 continue
+            region = region_when_true(mod, node)  # the branch taken when the token is a quoted string
             fi = prog.enclosing_function(mod, node)
             q = fi.qualname if fi else "<module>"
             for var, ks in kinds.items():
                 n_sites += 1
                 site = f"{mod.relpath}:{node.lineno} {q}"
                 what = f"branch on {var} ∈ {sorted(ks)}_QUOTE_STRING decodes {var}.value"
-                uses = [a for b in node.body for a in ast.walk(b) if isinstance(a, ast.Attribute) and a.attr == "value" and isinstance(a.value, ast.Name) and a.value.id == var]
-                handed = [c for b in node.body for c in ast.walk(b) if isinstance(c, ast.Call) and any(isinstance(x, ast.Name) and x.id == var for x in c.args) and (dotted(c.func) or "").split(".")[-1] in DECODERS]
+                uses = [a for b in region for a in ast.walk(b) if isinstance(a, ast.Attribute) and a.attr == "value" and isinstance(a.value, ast.Name) and a.value.id == var]
+                handed = [c for b in region for c in ast.walk(b) if isinstance(c, ast.Call) and any(isinstance(x, ast.Name) and x.id == var for x in c.args) and (dotted(c.func) or "").split(".")[-1] in DECODERS]
                 problems = []
                 for u in uses:
                     inside_unescape = False
@@ -176,10 +179,10 @@ def run(prog: Program, res: Result) -> None:  # noqa: PLR0912, PLR0915
                         problems.append(f"`{var}.value` may be single-quoted but \\' is not replaced before unescape()")
                 if not uses and not handed:
                     # the branch neither reads the text nor delegates: e.g. only checks the kind
-                    reads_token = any(isinstance(x, ast.Name) and x.id == var for b in node.body for x in ast.walk(b))
+                    reads_token = any(isinstance(x, ast.Name) and x.id == var for b in region for x in ast.walk(b))
                     if reads_token:
                         # passes the token on to something that is not a known decoder
-                        calls = [c for b in node.body for c in ast.walk(b) if isinstance(c, ast.Call) and any(isinstance(x, ast.Name) and x.id == var for x in list(c.args) + [k.value for k in c.keywords])]
+                        calls = [c for b in region for c in ast.walk(b) if isinstance(c, ast.Call) and any(isinstance(x, ast.Name) and x.id == var for x in list(c.args) + [k.value for k in c.keywords])]
                         non_ctor = [c for c in calls if (dotted(c.func) or "").split(".")[-1] not in DECODERS and not _is_token_only_use(c, var)]
                         if non_ctor:
                             problems.append(f"{var} is passed to `{norm(non_ctor[0].func)}` which is not a decoding helper")
